@@ -826,6 +826,20 @@ def observed(parser, text):
     return [a, b, err]
 
 
+ENABLER_PAIRS = [
+    (b'require "comparator-i;ascii-numeric";\nif header :comparator "i;ascii-numeric" :is "X-N" "10" { stop; }\n',
+     b'if header :comparator "i;ascii-numeric" :is "X-N" "10" { stop; }\n'),
+    (b'require ["comparator-i;ascii-numeric", "relational"];\nif header :value "gt" :comparator "i;ascii-numeric" "X-N" "10" { stop; }',
+     b'require "relational";\nif header :value "gt" :comparator "i;ascii-numeric" "X-N" "10" { stop; }'),
+    (b'require "comparator-elbonia";\nif address :comparator "elbonia" :is "from" "a@b" { keep; }\n',
+     b'if address :comparator "elbonia" :is "from" "a@b" { keep; }\n'),
+    (b'require "comparator-i;ascii-numeric"',      # cut right after the name: the ';' never comes
+     b'if envelope :comparator "i;ascii-numeric" :is "from" "1" { keep; }\n'),
+    (b'require ["regex", "variables"];\nif header :regex "S" "^x" { set "a" "b"; }\n',
+     b'if header :regex "S" "^x" { set "a" "b"; }\n'),
+]
+
+
 def check_C13(report, tier, seed, replay=None):
     from sievelib.parser import Parser
     rng = common.rng_for(seed, "C13")
@@ -848,10 +862,24 @@ def check_C13(report, tier, seed, replay=None):
         hist = []
         kept = []          # (parser object, text) of accepted parses by parsers that are not used again
         live = factory_checks.C13LiveSet() if (factory_jobs is not None and h % 2 == 0) else None
+        pending = None
         for k in range(rng.randrange(4, 13)):
             toks, needs = G.gen_script(rng, avoid_optpos=(k % 3 != 0), ncmds=rng.randrange(1, 4))
             r = rng.random()
-            if r < 0.25:
+            # a script that requires a capability-like name (comparator-..., an unknown extension) and uses what that
+            # name could enable, followed by a script that uses it WITHOUT the require: whatever the first one did to the
+            # definitions must not reach the second (both are compared with the pristine interpreter as every script)
+            if pending is None and rng.random() < 0.12:
+                pending = rng.choice(ENABLER_PAIRS)
+                r = -1.0
+            elif pending is not None:
+                r = -2.0
+            if r == -1.0:
+                text = pending[0]
+            elif r == -2.0:
+                text = pending[1]
+                pending = None
+            elif r < 0.25:
                 # drop the require: only valid if state leaks from the previous script
                 body = [t for t in toks]
                 if body and body[0] == ("id", "require"):
